@@ -579,6 +579,10 @@ def c04_programs(backend, tier):
         "Select(EventDataset('ds'), lambda e: e.PRIM('A').Select(lambda j: j.vals().Count() == 0 or j.vals()[0] > 1))",
         "Select(SelectMany(EventDataset('ds'), lambda e: e.PRIM('A')).Where(lambda j: j.vals().Count() > 2), lambda j: j.vals()[2])",
         "Select(SelectMany(EventDataset('ds'), lambda e: e.PRIM('A')), lambda j: j.ivals()[j.nTrk()])",
+        # a vector column filled BEFORE an unguarded partial operation of the same row (the fault comes after the push_backs)
+        "Select(EventDataset('ds'), lambda e: (e.PRIM('A').Select(lambda j: j.eta()), e.SEC('B').Select(lambda t: t.pt()).First(), e.PRIM('A').Count()))",
+        "Select(EventDataset('ds'), lambda e: {'v': e.PRIM('A').Select(lambda j: j.pt()), 'f': e.SEC('B').First().pt()})",
+        "Select(EventDataset('ds'), lambda e: (e.PRIM('A').Select(lambda j: j.vals()), e.PRIM('A').Select(lambda j: j.vals()[0])))",
         # First over a flattened (SelectMany) sequence: undefined exactly when EVERY inner sequence is empty
         "Select(EventDataset('ds'), lambda e: e.PRIM('A').SelectMany(lambda j: j.vals()).First())",
         "Select(EventDataset('ds'), lambda e: e.PRIM('A').SelectMany(lambda j: j.vals()).Where(lambda v: v > 1.5).First())",
